@@ -1053,6 +1053,40 @@ def gen_C14(rng, tier):
             h.ops.append("%s=interp@0 %s %s %s" % (h.newb(), ",".join(xs), ",".join(ys), ",".join(vs + [vs[0]])))
             h.ops.append("%s=interp@0 %s %s %s" % (h.newb(), ",".join(xs), ",".join(ys), ",".join(vs[:-1]) or "-"))
         L.append(h.line())
+    # interpolation inside quotient rings: bivariate (every product is reduced modulo the ideal) and univariate
+    for _ in range(300 if tier == "thorough" else 60):
+        desc = pick_field(rng, small=0.85, mid=0.15)
+        one = "1"
+        c = rand_elem(desc, rng, special=0)
+        gens = rng.choice([
+            "0:1:%s/2:0:%s" % (one, c),                      # Y + cX^2
+            "1:1:%s/0:0:%s" % (one, c),                      # XY + c
+            "2:0:%s/0:0:%s;0:2:%s/0:1:%s" % (one, c, one, c),  # X^2 + c, Y^2 + cY
+            "3:0:%s/1:0:%s;0:1:%s" % (one, c, one),          # X^3 + cX, Y
+            "1:0:%s/0:1:%s" % (one, c),                      # X + cY
+        ])
+        h = H(rng, desc, uspec=umod_spec(rng, desc)[0], bspec=bspec(rng, gens=gens))
+        k = rng.randrange(1, 5)
+        pairs = set()
+        tries = 0
+        while len(pairs) < k and tries < 100:
+            pairs.add((rand_elem(desc, rng, special=0.2), rand_elem(desc, rng, special=0.2))); tries += 1
+        xs, ys, vs = [], [], []
+        for (x, y) in pairs:
+            xs.append(h.elem(x)); ys.append(h.elem(y)); vs.append(h.elem() if rng.random() < 0.8 else h.elem("0"))
+        g = h.newb()
+        h.ops.append("%s=interp@1 %s %s %s" % (g, ",".join(xs), ",".join(ys), ",".join(vs)))
+        for x, y in zip(xs, ys):
+            h.ops.append("%s=eval %s %s %s" % (h.newe(), g, x, y))
+        h.ops.append("obs %s" % g)
+        ux = list({x for x, _ in pairs})
+        upts = [h.elem(x) for x in ux]
+        f = h.newu()
+        h.ops.append("%s=interp@1 %s %s" % (f, ",".join(upts), ",".join(h.elem() for _ in upts)))
+        for pnt in upts:
+            h.ops.append("%s=eval %s %s" % (h.newe(), f, pnt))
+        h.ops.append("obs %s" % f)
+        L.append(h.line())
     # whole field
     for desc in fields(SMALL_Q[:10]):
         h = H(rng, desc)
